@@ -298,11 +298,14 @@ def run(case, rec):
     if kind == "zero":
         sv = sphere_vol(R, dim)
         c = common.monitored(rec, "volume", lambda: d.volume)
-        if c.ok:
+        # (the axisymmetric class documents NotImplementedError for its volume with more than one mode)
+        if rec.check(c.ok or isinstance(c.exc, NotImplementedError), "no-exception",
+                     f"volume raised {c.exc!r} with all amplitudes zero; {label}") and c.ok:
             rec.check(abs(c.result - sv) <= 1e-8 * sv, "zero-amplitudes", f"volume {c.result!r} != sphere {sv!r}; {label}")
         if dim == 2:
             c = common.monitored(rec, "surface_area", lambda: d.surface_area)
-            if c.ok:
+            if rec.check(c.ok or isinstance(c.exc, NotImplementedError), "no-exception",
+                         f"surface_area raised {c.exc!r} with all amplitudes zero; {label}") and c.ok:
                 rec.check(abs(c.result - 2 * math.pi * R) <= 1e-10 * R, "zero-amplitudes", f"surface {c.result!r} != 2 pi R; {label}")
     rec.evaluated(nontrivial=nontrivial and kind != "zero" or (kind == "zero" and R != 1.0))
     rec.count(f"{kind}:{cls}")
